@@ -140,6 +140,10 @@ type Dz struct {
 	Name string
 }
 
+// defined types whose elements are already interfaces (what bson.A / bson.M look like)
+type dynRow []interface{}
+type dynObj map[string]interface{}
+
 type Pair struct {
 	A, B Wrap
 	Ws   []Wrap
@@ -376,6 +380,18 @@ func checkC18(r *harness.Run) harness.Coverage {
 			map[string]interface{}{"Name": "holder", "Repo": Leaf{"s", 7, true}, "Kids": []interface{}{&Leaf{"p", 1, false}, Leaf{"q", 2, true}}, "ID": &Meta{9, "m"}},
 			// generic containers holding typed slices
 			map[string]interface{}{"Name": "mixed", "Kids": []interface{}{[]string{"a", "b"}, []float64{1, 2}, []interface{}{[]string{"c"}}}, "ID": []string{"x", "y"}},
+			// slices of slices, inside generic containers and as struct fields (one level of flatten removes ONE level)
+			map[string]interface{}{"Name": "nest", "Kids": []interface{}{[][]string{{"a", "b"}, {"c"}}, "d", [][]float64{{1}, {2, 3}}}, "ID": [][]float64{{1}, {2, 3}}},
+			struct {
+				Name string
+				Kids [][]string
+				ID   []interface{}
+			}{"rows", [][]string{{"a", "b"}, {}, {"c"}}, []interface{}{[][]string{{"e", "f"}}, []string{"g"}}},
+			&struct {
+				Name string
+				Kids [][][]float64
+				Subs []struct{ Rows [][]string }
+			}{"cube", [][][]float64{{{1, 2}, {3}}, {{4}}}, []struct{ Rows [][]string }{{[][]string{{"a"}, {"b", "c"}}}, {[][]string{}}}},
 			struct {
 				Name string
 				ID   float64
@@ -388,6 +404,7 @@ func checkC18(r *harness.Run) harness.Coverage {
 			"length(Kids)", "Kids[].ID", "Kids[*].[ID, Score]", "not_null(ID, Name)", "Kids[::-1][*].ID", "Kids[1]", "Kids[1].[ID]", "Kids[*].Score",
 			"Rev", "By", "Title", "Subs[*].Rev", "Subs[*].By", "Subs[?N > `1`].Rev", "Subs[0].By", "Subs[1].Rev", "[Rev, By, Title]", "Subs[].N", "Rev || Title",
 			"Kids[0]", "Kids[2][0]", "Kids[]", "Kids[*][0]", "ID[0]",
+			"Kids[][]", "[Kids][]", "Kids[*][]", "ID[]", "ID[][]", "Kids[0][]", "[ID][]", "[ID[0]][]", "Kids[][][]", "Subs[*].Rows[]", "Subs[].Rows[]", "Subs[*].Rows[][]", "[Subs[0].Rows][]", "Subs[0].Rows[]", "Kids[] | [0]", "Kids[*][*]", "Kids[*][0][]", "length(Kids[])", "Kids[1:][]",
 			// comparisons of whole Go values of the same type (filter conditions compare what navigation returns)
 			"\"Ǆep\"", "\"Ǉub\"", "[\"Ǆep\", Name]", "Repo.S", "Repo.N", "Kids[*].S", "Kids[1].N", "ID.Label", "Kids[?B].S", "Repo",
 			"Groups[:].Members[:].S", "Groups[*].Members[*].S", "Groups[:].Members[1:].N", "Groups[].Members[].S", "Groups[::-1].Members[::-1].S", "Ptrs[:].Members[:].S", "Groups[:2].Members[:2].S",
@@ -399,7 +416,9 @@ func checkC18(r *harness.Run) harness.Coverage {
 		}
 		// built-ins over these documents: only "no panic, no modification" is demanded (marked by an empty twin)
 		for _, e := range []string{"contains(Kids, ID)", "contains(Kids[2], Kids[0])", "contains(Kids, `[\"a\",\"b\"]`)", "length(Kids[0])", "contains(@, Kids)", "sort_by(Kids, &ID)", "max_by(Subs, &N)",
-			"map(&@, Kids)", "reverse(Kids)", "to_array(Kids[0])", "merge(@, @)", "keys(@)", "values(@)", "not_null(Kids[1], ID)", "join(',', ID)", "contains(ID, 'x')", "type(Kids)", "to_string(@)"} {
+			"map(&@, Kids)", "reverse(Kids)", "to_array(Kids[0])", "merge(@, @)", "keys(@)", "values(@)", "not_null(Kids[1], ID)", "join(',', ID)", "contains(ID, 'x')", "type(Kids)", "to_string(@)",
+			// object wildcards over structs (unsupported or not: never a panic, also with nil embedded pointers)
+			"*", "@.*", "[*].*", "Kids[*].*", "map(&*, Kids)", "map(&*, @)", "length(*)", "*.ID", "Kids[0].*", "Subs[*].*", "[0].*", "* | [0]", "to_array(*)", "Ws[*].*", "A.*", "Ptrs[*].*", "[].*"} {
 			embExprs = append(embExprs, [2]string{e, ""})
 		}
 		// non-ASCII first letters: the lower-case spelling must find the field through its UPPER case
@@ -472,6 +491,17 @@ func checkC18(r *harness.Run) harness.Coverage {
 				[]*DynItem{{"e", map[string]interface{}{"cpu": 9}, []interface{}{int8(1)}}},
 				&NumKinds{Ints: []int{3, 1, 2}, I64: []int64{-1, 5}, F32: []float32{1.5, 0.25}, U8: []uint8{7, 8, 9}, Mixed: []interface{}{1.0, 2, int64(3)}, One: 4},
 				NumKinds{Ints: []int{}, I64: []int64{9}, F32: []float32{}, U8: []uint8{}, Mixed: []interface{}{}, One: 0},
+				// typed nil pointers directly inside generic containers and as the root
+				map[string]interface{}{"Name": "nilp", "ID": (*float64)(nil), "Kids": []interface{}{(*string)(nil), (*DynItem)(nil), "s"}, "Repo": (*[]string)(nil), "One": (*map[string]interface{})(nil)},
+				[]interface{}{(*float64)(nil), 1.0, (*DynItem)(nil)}, (*float64)(nil), (*DynItem)(nil),
+				// defined slice / map types whose elements are already interfaces, and typed slices as members
+				map[string]interface{}{"Name": "defd", "Kids": dynRow{map[string]interface{}{"Name": "r1", "Tags": dynRow{"x", "y"}, "ID": 2.0}, dynObj{"Name": "r2", "Tags": []string{"z"}, "ID": 1.0}}, "Repo": dynObj{"a": dynRow{1.0, 2.0}}, "ID": []string{"b", "a"},
+					"Ints": []interface{}{map[string]interface{}{"Name": "db", "Tags": []string{"p", "q"}, "One": 3.0}, map[string]interface{}{"Name": "web", "Tags": []string{}, "One": 1.0}}},
+				dynRow{dynObj{"Name": "e1", "ID": 2.0}, dynObj{"Name": "e0", "ID": 1.0}},
+				// raw JSON as the root: a sort_by that fails on it, followed by ordinary documents (the next entries)
+				json.RawMessage(`[{"Name": "a", "ID": "x"}, {"Name": "b", "ID": 1}]`),
+				[]interface{}{map[string]interface{}{"Name": "b", "ID": 2.0}, map[string]interface{}{"Name": "a", "ID": 1.0}},
+				map[string]interface{}{"Kids": []interface{}{map[string]interface{}{"Name": "b", "ID": 2.0}, map[string]interface{}{"Name": "a", "ID": 1.0}}, "Ints": []interface{}{3.0, 1.0, 2.0}},
 			}
 		}
 		dynExprs := []string{}
@@ -485,6 +515,9 @@ func checkC18(r *harness.Run) harness.Coverage {
 		for _, text := range append([]string{"to_string(@)", "Kids[*].to_string(@)", "to_string(Kids[0])", "Repo", "Repo.a", "Repo.S", "[ID, Repo]", "length(Repo)", "type(Repo)", "Kids[*].type(@)", "Kids[*].not_null(@)", "values(@)", "keys(@)",
 			"Kids[*].Attrs", "Kids[*].Attrs.cpu", "Kids[*].Tags[0]", "Kids[].Tags[]", "ID", "abs(ID)", "Kids[*].Attrs.cpu | sum(@)", "max_by(Kids, &Attrs.cpu)", "sort_by(Kids, &Name)", "map(&Name, Kids)", "to_array(@)", "to_array(Kids[0])",
 			"merge(Kids[0].Attrs, Kids[1].Attrs)", "contains(Kids[0].Tags, `1`)", "Kids[0] == Kids[0]", "Kids[?Attrs.cpu > `1`].Name", "[*].Name", "[*].to_string(@)", "[0].Attrs", "not_null(Repo, ID)", "Kids[1]", "Kids[1].Repo", "Kids[0][0]",
+			"@", "Ints[1:]", "Ints", "max_by(Ints, &One)", "Ints[?Name == 'db'] | [0]", "Ints[0]", "Kids[*].ID", "Kids[*].Tags[]", "Kids[*].Name", "[*].ID", "[*].Name", "Kids[*]", "Kids[]", "Ints[*].Tags", "{k: Kids, i: Ints}", "[Kids, Ints]", "Kids || Ints",
+			"sort_by(@, &ID)", "sort_by(@, &ID)[0]", "sort_by(Kids, &ID)", "sort_by(Kids, &Name)[0].Name", "sort(Ints)", "max_by(@, &ID)", "reverse(@)", "abs(ID)", "length(Repo)", "keys(ID)", "keys(One)", "sort_by(Kids, &@)", "Kids[*].length(@)", "type(ID)",
+			"ID || Name", "Kids[0]", "max(Kids)", "join(',', Kids)", "contains(Kids, ID)", "merge(@, ID)", "to_array(ID)", "ID == `null`", "[?ID]", "map(&@, Kids)", "avg(Kids)", "sum(Kids)", "reverse(Repo)", "starts_with(ID, 'a')", "ceil(ID)", "*", "abs(@)", "length(@)", "[0]", "[*]", "[]", "abs([0])", "[*].abs(@)", "keys(@)", "not_null(@)", "to_string(@)", "@ == `null`", "!@",
 			"length(Kids)", "reverse(Kids)", "Kids[::-1]", "{r: Repo, k: Kids}", "Repo || ID", "Repo[0]", "Repo[*]", "Repo[]", "join(',', Kids[*].Name)", "to_number(ID)", "to_string(ID)", "Kids[*].Tags | [0]"}, dynExprs...) {
 			jp, cerr, pn := impl.Compile(text)
 			if pn != nil || cerr != nil {
